@@ -218,3 +218,32 @@ CONTRACTS = {
 json.dump({"invariants": INV, "rows": ROWS}, open(os.path.join(HERE, "panic_sites.json"), "w"), indent=1)
 json.dump({"contracts": CONTRACTS}, open(os.path.join(HERE, "contracts.json"), "w"), indent=1)
 print("panic_sites: %d rows (%d findings); contracts: %d functions" % (len(ROWS), sum(1 for r in ROWS if r["verdict"] == "finding"), len(CONTRACTS)))
+
+
+# ---- how many sites each row actually covers on the reviewed tree (after the mechanical discharges): a row whose sites are all discharged
+# mechanically covers none, and must not look like room for a new site of the same signature moved in from a neighbour (rules_panic.rebalance)
+def annotate_baseline():
+    import sys
+    sys.path.insert(0, os.path.join(os.path.dirname(HERE), "engine", "sfsverif"))
+    import facts, rules_panic as RP
+    prog, info = facts.get_facts("/repo", verbose=False)
+    res, auto = RP.collect_sites(prog, [f for f in prog.fn_list])
+    ps = json.load(open(os.path.join(HERE, "panic_sites.json")))
+    base = {}
+    for (fp, sig), sites in res.items():
+        base[(fp, sig)] = len(sites)
+    merged = {}
+    for r in ps["rows"]:
+        k = (RP.norm_fn(r["fn"]), RP.norm_sig(r["sig"]))
+        merged.setdefault(k, []).append(r)
+    for k, rs in merged.items():
+        n = base.get(k, 0)
+        # rows of sibling closures are merged by the engine: give the whole number to the first, 0 to the rest
+        for i, r in enumerate(rs):
+            r["baseline"] = n if i == 0 else 0
+    json.dump(ps, open(os.path.join(HERE, "panic_sites.json"), "w"), indent=1)
+    print("baseline site counts written for %d rows (%d rows cover no site any more: discharged mechanically)" % (len(ps["rows"]), sum(1 for k, rs in merged.items() if base.get(k, 0) == 0)))
+
+
+if __name__ == "__main__":
+    annotate_baseline()
